@@ -42,6 +42,16 @@ WORKERS = 16
 CLIENT_CFLAGS = ['-Wall', '-Wextra', '-std=c99', '-pedantic', '-pedantic-errors', '-D_POSIX_C_SOURCE=199309L']
 PP_CFLAGS = ['-std=c99', '-D_POSIX_C_SOURCE=199309L']
 PUBLIC_MACRO = re.compile(r'^(DECLARE_CSTL_|CSTL_)')
+# What the CLIENT's compiler flags are is the client's business: optimisation levels and common code-generation / feature
+# flags change predefined macros (__OPTIMIZE__, __OPTIMIZE_SIZE__, __NO_INLINE__, __FAST_MATH__, __PIC__, _REENTRANT,
+# __CHAR_UNSIGNED__, _FORTIFY_SOURCE ...) that a header may key on.  The all-headers address-table client is built with each.
+FLAG_SWEEP = ['-Os', '-O1', '-O3', '-Og', '-Ofast', '-O2 -D_FORTIFY_SOURCE=2', '-O2 -fPIC', '-O2 -fPIE', '-O2 -pthread',
+              '-O2 -funsigned-char', '-O2 -fno-inline', '-O2 -ffast-math', '-O2 -fgnu89-inline', '-O2 -fno-common',
+              '-O0 -DNDEBUG', '-O2 -DNDEBUG']
+
+
+def optname(opt):
+    return re.sub(r'[^A-Za-z0-9_=-]+', '', opt)
 SAN = ['-g', '-fsanitize=address,undefined', '-fno-sanitize=nonnull-attribute',
        '-fno-sanitize-recover=all', '-fno-omit-frame-pointer']
 EXCLUDED_HEADERS = ('_string.h',)       # guard-less template instantiated by string.h
@@ -243,6 +253,28 @@ def parse_macros(text, incdir):
             del live[m.group(1)]
             order.remove(m.group(1))
     return [(n, live[n][0], live[n][1]) for n in order]
+
+
+def parse_objects(text, incdir):
+    """`gcc -E` output -> names of OBJECTS declared `extern` by files under incdir/cstl (no parentheses in the declaration)"""
+    pre = os.path.join(os.path.realpath(incdir), 'cstl') + os.sep
+    own, keep = False, []
+    for line in text.splitlines():
+        m = re.match(r'# \d+ "([^"]*)"', line)
+        if m:
+            own = os.path.realpath(m.group(1)).startswith(pre)
+            continue
+        if line.startswith('#'):
+            continue
+        if own:
+            keep.append(line)
+    names = []
+    for m in re.finditer(r'\bextern\b([^;{}()]*);', ' '.join(keep)):
+        d = re.sub(r'\[[^\]]*\]', '', m.group(1)).strip()
+        n = re.search(r'([A-Za-z_]\w*)\s*$', d)
+        if n and n.group(1) not in names:
+            names.append(n.group(1))
+    return names
 
 
 def load_macro_table():
@@ -559,6 +591,7 @@ class Pipeline:
                 res[opt] = (cmd, rc, out, obj)
             prc, pout = sh(['gcc'] + PP_CFLAGS + ['-I' + inc, '-dD', '-E', src])
             res['macros'] = parse_macros(pout, inc) if prc == 0 else None
+            res['objects'] = parse_objects(pout, inc) if prc == 0 else []
             return nm, hs, res
         with ThreadPoolExecutor(max_workers=WORKERS) as ex:
             results = list(ex.map(one, jobs))
@@ -619,6 +652,12 @@ class Pipeline:
                         names.append(r['name'])
             own[h] = names
         self.funcs, self.own = funcs, own
+        self.extern_objects = []
+        for nm, hs, res in results:
+            for n in res.get('objects') or []:
+                if n not in self.extern_objects:
+                    self.extern_objects.append(n)
+        self.count('declared-extern-objects', len(self.extern_objects))
         self.all_funcs = []
         src_recs = aux_by.get('all') or [r for h in self.headers for r in (aux_by.get(hname(h)) or [])]
         for r in src_recs:
@@ -779,6 +818,7 @@ class Pipeline:
         for kind, hs in combos:
             self.add_configs(kind, hs, self.opts, [1, 2], ['static', 'shared'], tu_orders)
         self.add_addr(self.opts, [False, True], ['static', 'shared'])
+        self.add_addr([f for f in FLAG_SWEEP if f not in self.opts], [False], ['static', 'shared'])
 
     def obj_for(self, kind, hs, role, opt, san=False):
         key = (hs, role, opt, san)
@@ -789,7 +829,7 @@ class Pipeline:
                 self.dirs[dk] = os.path.join(self.broot, 'c', '%04d-%s' % (len(self.dirs), kind))
             d = self.dirs[dk]
             o = {'key': key, 'kind': kind, 'headers': hs, 'role': role, 'opt': opt, 'san': san,
-                 'src': os.path.join(d, role + '.c'), 'obj': os.path.join(d, '%s%s%s.o' % (role, opt, '-san' if san else '')),
+                 'src': os.path.join(d, role + '.c'), 'obj': os.path.join(d, '%s%s%s.o' % (role, optname(opt), '-san' if san else '')),
                  'dir': d, 'rc': None, 'out': '', 'cmd': None}
             self.objects[key] = o
         return o
@@ -873,7 +913,7 @@ class Pipeline:
                     f.write(text)
 
         def one(o):
-            cmd = ['gcc'] + CLIENT_CFLAGS + [o['opt']] + (SAN if o['san'] else []) + ['-I' + inc, '-c', o['src'], '-o', o['obj']]
+            cmd = ['gcc'] + CLIENT_CFLAGS + o['opt'].split() + (SAN if o['san'] else []) + ['-I' + inc, '-c', o['src'], '-o', o['obj']]
             o['cmd'] = cmd
             o['rc'], o['out'] = sh(cmd)
             return o
@@ -916,9 +956,9 @@ class Pipeline:
                 c['link_rc'] = None
                 return c
             exe = os.path.join(c['objs'][0]['dir'] if c['order'] != 'tm' else c['objs'][1]['dir'],
-                               'client-%dtu-%s-%s%s%s' % (c['ntu'], c['mode'], c['order'], c['opt'],
+                               'client-%dtu-%s-%s%s%s' % (c['ntu'], c['mode'], c['order'], optname(c['opt']),
                                                           '-san' if c['san'] else ''))
-            cmd = ['gcc'] + (SAN if c['san'] else []) + ['-o', exe] + [o['obj'] for o in c['objs']]
+            cmd = ['gcc'] + [f for f in c['opt'].split() if not f.startswith('-D')] + (SAN if c['san'] else []) + ['-o', exe] + [o['obj'] for o in c['objs']]
             if c['mode'] == 'static':
                 cmd += [os.path.join(bdir, 'libcstl.a'), '-lm']
             else:
@@ -1079,6 +1119,21 @@ class Pipeline:
                 if good:
                     resolved += 1
             self.count('extern-functions-resolved', resolved)
+            # objects the headers declare `extern` must be defined by the library too (a client may refer to them)
+            for n in getattr(self, 'extern_objects', []):
+                d = [x for x in lib_defs.get(n, []) if x[1] in 'DBRSGCVW']
+                if not d:
+                    self.violate('nm.declared-object-not-defined.%s' % n,
+                                 'the headers declare the object `extern ... %s;` but no member of libcstl.a defines it: a client that refers to it gets an undefined symbol' % n,
+                                 -1, ' '.join(cmd_a), 'no data-symbol entry for %s; entries: %s' % (n, lib_defs.get(n, [])),
+                                 {'client': 'nm', 'check': 'declared-object-not-defined', 'symbol': n, 'desc': 'nm libcstl.a'})
+                elif so_defs.get(n) is None:
+                    self.violate('nm.declared-object-not-exported.%s' % n,
+                                 'the headers declare the object %s but libcstl.so does not export it' % n,
+                                 -1, ' '.join(cmd_so), 'no dynamic symbol table entry for %s' % n,
+                                 {'client': 'nm', 'check': 'declared-object-not-exported', 'symbol': n, 'desc': 'nm -D libcstl.so'})
+                else:
+                    self.count('extern-objects-resolved')
             # ---- the library's global symbols outside its own name space
             # A client may use any identifier that is neither reserved nor declared by the headers it includes.  Every global
             # symbol libcstl.a defines outside (__)cstl_* is such an identifier: a client that defines a function of that name
